@@ -9,6 +9,7 @@ mod fixedwindow;
 mod fsutil;
 mod jsonline;
 mod levelgate;
+mod fragments;
 mod cfgformat;
 mod reloadlive;
 mod datezone;
@@ -35,6 +36,7 @@ fn main() {
         "routing" => routing::main(rest),
         "cfgbuild" => cfgbuild::main(rest),
         "fanout" => fanout::main(rest),
+        "fragments" => fragments::main(rest),
         "cfgformat" => cfgformat::main(rest),
         "reloadlive" => reloadlive::main(rest),
         "reloadlive-child" => reloadlive::child(rest),
